@@ -80,6 +80,18 @@ def corpus():
     di = [float(rng.randint(-40, 40)) for _ in es]
     for which in ("chain-trend-knn", "chain-trend-spline", "vector-of", "knn", "linear"):
         cs.append(mk_exact(which, es, ns, [9], [di, di[::-1]], {"rescale": False} if which == "linear" else {}, "corpus-intdata-" + which))
+    # families that must be exercised on EVERY run, whatever the seed (each was once needed to expose a seeded change):
+    e8, n8 = pts(rng, 8, 1.0, 0.0)
+    d8 = [rng.randint(-32, 32) / 4.0 for _ in e8]
+    for which, params in (("vector", {"poisson": 0.0, "mindist": 2.0}), ("spline", {}), ("chain-trend-spline", {}), ("vector-of", {}),
+                          ("chain-trend-linear-knn", {}), ("chain-trend-trend-spline", {})):
+        cs.append(mk_exact(which, e8, n8, [2, 4], [d8, d8[::-1]], params, "corpus-2d-" + which))       # 2-D arrays
+    for deg in (2, 3, 4):
+        npar = (deg + 1) * (deg + 2) // 2
+        et, nt = pts(rng, npar + 5, 0.125, 0.0)
+        coef = [rng.randint(-16, 16) / 4.0 or 1.0 for _ in combos(deg)]                                   # every monomial present
+        for e2 in (-7, 0, 17):
+            cs.append(mk_trend(et, nt, deg, deg, coef, f"corpus-trend-{deg}-full-scale2^{e2}", 2.0 ** e2))
     return cs
 
 
